@@ -147,7 +147,7 @@ def nothing_can_fail(world):
                 return False
             if a["a"] == "execute_steps":
                 return False
-            if a["a"] in ("examples_table", "step_table", "skip_element"):
+            if a["a"] in ("examples_table", "step_table", "skip_element", "skip_container"):
                 return False
     return True
 
@@ -295,6 +295,11 @@ def check_C03(world, hist, pred):
                 pass
             else:
                 return
+        if dead and kind == "outline" and node["status"] == "skipped" and \
+                any(s in ("failed", "error", "hook_error", "undefined", "pending") for s in children):
+            # (holds without any trace knowledge: something that failed inside is never 'skipped')
+            out.append(V("C03", "outline-status", "outline:failed-child=>skipped", id=node["id"], children=children))
+            return
         allowed = allowed_from_children(children, kind)
         if world["cfg"].get("dry_run"):
             # nothing is executed in a dry run: 'untested' is the other documented answer
@@ -355,7 +360,7 @@ def _static_selection_checks(world, hist, prop, reason_kinds):
         if e["depth"] == 0 and e["kind"] in ("hook", "step") and e.get("scen"):
             executed.add(e["scen"])
         for d in e["did"]:
-            if d[0] in ("skip_element", "skip_scenario"):
+            if d[0] in ("skip_element", "skip_scenario", "skip_container"):
                 skippers = True
         if e.get("raised"):
             cut = True
